@@ -91,6 +91,7 @@ func (it *Interp) spawn(fr *Frame, pos token.Pos, fn Value, args []Value) {
 	s := it.sched
 	t := &Thread{id: len(s.threads), wake: make(chan bool, 1)}
 	s.threads = append(s.threads, t)
+	it.raceFork(t.id)
 	s.logEvent(SyncEvent{Kind: "fork", Thread: s.cur.id, Other: t.id})
 	go func() {
 		run := <-t.wake
@@ -246,6 +247,7 @@ func (s *Scheduler) joinAll() {
 		}
 		return true
 	})
+	s.it.raceJoinAll()
 	s.logEvent(SyncEvent{Kind: "joinall", Thread: s.cur.id})
 }
 
@@ -268,5 +270,33 @@ func (s *Scheduler) logEvent(e SyncEvent) {
 	s.events = append(s.events, e)
 }
 
-func (it *Interp) noteRead(addr *Value)  {}
-func (it *Interp) noteWrite(addr *Value) {}
+func (it *Interp) noteRead(addr *Value) {
+	if it.race != nil && it.race.on && len(it.sched.threads) > 1 {
+		it.noteCells(addr, false, 0)
+	}
+}
+func (it *Interp) noteWrite(addr *Value) {
+	if it.race != nil && it.race.on && len(it.sched.threads) > 1 {
+		it.noteCells(addr, true, 0)
+	}
+}
+
+// noteCells records an access to a cell and, for aggregates stored in it, to their field/element cells.
+func (it *Interp) noteCells(addr *Value, write bool, depth int) {
+	it.raceAccess(addr, write, false)
+	if depth > 3 {
+		return
+	}
+	switch v := (*addr).(type) {
+	case Struct:
+		for i := range v {
+			it.noteCells(&v[i], write, depth+1)
+		}
+	case Array:
+		if len(v) <= 64 {
+			for i := range v {
+				it.noteCells(&v[i], write, depth+1)
+			}
+		}
+	}
+}
